@@ -69,6 +69,13 @@ Definition check_shrink (old new : named Z) (res : option (named Z)) : bool :=
   | _, _ => false
   end.
 
+(* ---- unit level: real nn.Module.load_state_dict (as used by clone / reinit_from_mutated) between two
+        real layer stacks; entries = state_dict (parameters and buffers); err = RuntimeError raised *)
+Definition check_load (src dst res : named Z) (err : bool) : bool :=
+  okb src && okb dst && named_eqb (load_params src dst) res && Bool.eqb (load_error src dst) err
+  && named_eqb (clone src dst) res
+  && match reinit_from_mutated src dst with Some r => negb err && named_eqb r res | None => err end.
+
 (* ---- end to end: parameters of a real module before / after a real mutation ------------------ *)
 (* the fresh values of the re-created network are not observable; whatever they were, the result is a
    fixed point of [preserve before] (Proofs.preserve_idem_lemma), and a fixed point keeps the common
